@@ -363,3 +363,234 @@ Proof.
 Qed.
 
 End Shape2.
+
+(* ---------- the present properties ---------- *)
+Lemma xpresent_keys_sub e si sv (l : list (string * xproperty)) k :
+  In k (map fst (xpresent e si sv l)) -> In k (map fst l).
+Proof. intros H. apply xpresent_in in H as (np & x & Hnp & <- & _). now apply in_map. Qed.
+
+Lemma xpresent_nodup e si sv (l : list (string * xproperty)) :
+  NoDup (map fst l) -> NoDup (map fst (xpresent e si sv l)).
+Proof.
+  induction l as [|np t IH]; intros H; [constructor|]. cbn [map] in H. inversion H as [|? ? Hni Hnd]; subst.
+  unfold xpresent. cbn [flat_map]. fold (xpresent e si sv t).
+  destruct (xfield_value e si sv np) as [x|]; cbn [app map fst]; [|apply IH; exact Hnd].
+  constructor; [|apply IH; exact Hnd]. intros C. apply Hni. apply (xpresent_keys_sub _ _ _ _ _ C).
+Qed.
+
+(* equality up to treat-empty-as-default: the same struct shell, the same properties present with the same values *)
+Definition xstruct_sim (e : xenv) (props : list (string * xproperty)) (si : structinfo) (n n' : gval) : Prop :=
+  exists sv sv', xstruct_arg si n = Some sv /\ xstruct_arg si n' = Some sv' /\
+    forall np, In np props -> xfield_value e si sv' np = xfield_value e si sv np.
+
+(* a treat-empty-as-default property has no (decodable) default of its own *)
+Definition xempty_nodefault (e : xenv) (props : list (string * xproperty)) : bool :=
+  forallb (fun np => negb (p_empty_is_default (snd np) && xhas_default e np)) props.
+
+Lemma xempty_nodefault_spec e (props : list (string * xproperty)) np :
+  xempty_nodefault e props = true -> In np props -> p_empty_is_default (snd np) = true -> xhas_default e np = false.
+Proof.
+  unfold xempty_nodefault. intros H Hin He. rewrite forallb_forall in H. specialize (H np Hin). cbv beta in H.
+  unfold xproperty in *. rewrite He in H. destruct (xhas_default e np); [discriminate | reflexivity].
+Qed.
+
+Section Full.
+Variable words : list (string * bool).
+Variable pu : units -> string -> option fl.
+Notation xunser := (xunser words pu).
+Notation xvalidate := (xvalidate words pu).
+Notation xserialize := (xserialize words pu).
+Notation xubody := (xubody words pu).
+
+(* the per-property Unserialize fold on the serialized entries *)
+Lemma xu_fold_back f e (props : list (string * xproperty)) (X : string -> option gval) (ys : raw) :
+  NoDup (map fst props) ->
+  (forall k y, In (k, y) ys -> exists p x, In (k, p) props /\ p_disabled p = false /\
+                                         xunser f e (p_type p) y = Ok x /\ X k = Some x) ->
+  forall l (a : raw), NoDup (map fst l) -> (forall np, In np l -> In np props) ->
+    map fst a = map fst ys ->
+    (forall k, In k (map fst ys) ->
+       (In k (map fst l) -> alookup k a = alookup k ys) /\ (~ In k (map fst l) -> alookup k a = X k)) ->
+    exists q2, fold_left (fun acc np => a <- acc ;; xubody f e a np) l (Ok a) = Ok q2 /\
+      map fst q2 = map fst ys /\ forall k, In k (map fst ys) -> alookup k q2 = X k.
+Proof.
+  intros Hndp HY. induction l as [|[k0 p0] l IH]; intros a Hnd Hl Hk Hinv.
+  - exists a. split; [reflexivity|]. split; [exact Hk|]. intros k Hin. apply (Hinv k Hin). intros [].
+  - cbn [map fst] in Hnd. inversion Hnd as [|? ? Hni Hnd']; subst.
+    assert (Hl' : forall np, In np l -> In np props) by (intros; apply Hl; now right).
+    destruct (alookup k0 a) as [d|] eqn:Ed.
+    + assert (Hk0 : In k0 (map fst ys)).
+      { rewrite <- Hk. apply alookup_In in Ed. apply in_map_iff. exists (k0, d). auto. }
+      destruct (Hinv k0 Hk0) as [Hi1 _].
+      assert (Eys : alookup k0 ys = Some d) by (rewrite <- (Hi1 (or_introl eq_refl)); exact Ed).
+      apply alookup_In in Eys. destruct (HY _ _ Eys) as (p & x & Hp & Hdis & Hux & HX).
+      assert (p = p0).
+      { apply (In_alookup_nodup _ _ _ Hndp) in Hp. assert (Hp0 := Hl _ (or_introl eq_refl)).
+        apply (In_alookup_nodup _ _ _ Hndp) in Hp0. congruence. }
+      subst p.
+      assert (Ham : amem k0 a = true) by (unfold amem; rewrite Ed; reflexivity).
+      destruct (raw_set_present k0 x a Ham) as [Hf Hlk].
+      destruct (IH (raw_set k0 x a) Hnd' Hl') as (q2 & Hq2 & Hkq & Hvq).
+      { rewrite Hf. exact Hk. }
+      { intros k Hin. rewrite Hlk. destruct (Hinv k Hin) as [Ha Hb]. destruct (String.eqb k k0) eqn:E.
+        - apply String.eqb_eq in E. subst k. split; [intros C; contradiction | intros _; symmetry; exact HX].
+        - apply String.eqb_neq in E. split; [intros Hin'; apply Ha; now right|].
+          intros Hn; apply Hb; intros [C|C]; [cbn in C; congruence | contradiction]. }
+      exists q2. split; [|split; assumption]. apply fold_bind_cons. exists (raw_set k0 x a). split; [|exact Hq2].
+      unfold XRoundThm.xubody. cbn [fst snd]. rewrite Ed, Hdis, Hux. reflexivity.
+    + destruct (IH a Hnd' Hl' Hk) as (q2 & Hq2 & Hkq & Hvq).
+      { intros k Hin. destruct (Hinv k Hin) as [Ha Hb].
+        assert (k <> k0). { intros ->. apply alookup_None_notin in Ed. apply Ed. rewrite Hk. exact Hin. }
+        split; [intros Hin'; apply Ha; now right|].
+        intros Hn; apply Hb; intros [C|C]; [cbn in C; congruence | contradiction]. }
+      exists q2. split; [|split; assumption]. apply fold_bind_cons. exists a. split; [|exact Hq2].
+      unfold XRoundThm.xubody. cbn [fst snd]. rewrite Ed. reflexivity.
+Qed.
+
+(* the property types (children), three parts: what a property type's Unserialize returns is of the
+   property's reflected type, passes Validate, serializes, and the serialized form unserializes back to it;
+   and a treat-empty-as-default property contributes no sub-object defaults when it is absent *)
+Definition xchildren_rt (f f' : nat) (e : xenv) (props : list (string * xproperty)) : Prop :=
+  forall np, In np props ->
+    (forall d x, xunser f e (p_type (snd np)) d = Ok x ->
+       xres_ok (xprt e np) x = true /\ xvalidate f' e (p_type (snd np)) x = Ok tt /\
+       exists y, xserialize f' e (p_type (snd np)) x = Ok y /\ xunser f e (p_type (snd np)) y = Ok x) /\
+    (p_empty_is_default (snd np) = true ->
+       forall r : raw, alookup (fst np) r = None -> xsub_defaults f e (fst np) (snd np) r = Ok r).
+
+Theorem x_struct_roundtrip : forall f f' e id u props si v n,
+  xrt_desc e props si = true -> xempty_nodefault e props = true -> raw_keys_unique v = true ->
+  xchildren_rt f f' e props ->
+  xunser (S f) e (XObject id u props (Some si)) v = Ok n ->
+  xvalidate (S f') e (XObject id u props (Some si)) n = Ok tt /\
+  exists w, xserialize (S f') e (XObject id u props (Some si)) n = Ok w /\
+    exists n', xunser (S f) e (XObject id u props (Some si)) w = Ok n' /\ xstruct_sim e props si n n'.
+Proof.
+  intros f f' e id u props si v n Hdesc Hnodef Hu Hch Hun.
+  assert (Hch0 : xchildren_ok words pu f f' e props).
+  { intros np d x Hin Hd. destruct (Hch np Hin) as [H1 _]. destruct (H1 d x Hd) as (A & B & y & C & _). eauto. }
+  destruct (x_struct_roundtrip_partial words pu f f' e id u props si v n Hdesc Hu Hch0 Hun) as [Hval (w & Hser)].
+  split; [exact Hval|]. exists w. split; [exact Hser|].
+  pose proof (xd_nodup e props si Hdesc) as Hndp.
+  destruct (xunser_struct_shape2 words pu _ _ _ _ _ _ _ _ Hu Hun) as (r2 & Hnd & Hkeys & Hvals & Hdef & Hsubq & Hrules & Hto).
+  assert (Hval2 : forall k x p, In (k, x) r2 -> In (k, p) props ->
+            p_disabled p = false /\ exists d, xunser f e (p_type p) d = Ok x).
+  { intros k x p Hin Hp. destruct (Hvals k x Hin) as (p' & d & Hp' & Hdis & Hd).
+    assert (p' = p).
+    { apply (In_alookup_nodup _ _ _ Hndp) in Hp. apply (In_alookup_nodup _ _ _ Hndp) in Hp'. congruence. }
+    subst p'. eauto. }
+  destruct (xto_struct_extract e props si Hdesc r2 n Hnd Hkeys) as (sv & Harg & Hext); [|exact Hto|].
+  { intros k x p Hin Hp. destruct (Hval2 k x p Hin Hp) as (_ & d & Hd). destruct (Hch (k, p) Hp) as [H1 _]. apply (H1 d x Hd). }
+  pose proof (proj1 (xcheck_rules_ok _ _) Hrules) as Hr.
+  assert (E1 : forall np, In np props -> alookup (fst np) r2 = None -> xfield_value e si sv np = None).
+  { intros np Hin Hn. specialize (Hext np Hin). rewrite Hn in Hext. apply Hext.
+    destruct np as [k p]. specialize (Hr k p Hin). unfold xrule_holds in Hr. cbn [fst] in Hn.
+    assert (Ha : amem k r2 = false) by (now apply amem_false). rewrite Ha in Hr. destruct Hr as (Hreq & _).
+    pose proof (xd_opt e props si Hdesc (k, p) Hin) as Ho. apply andb_prop in Ho as [Ho _]. cbn [snd] in Ho.
+    rewrite Hreq in Ho. cbn [orb] in Ho.
+    destruct (xhas_default e (k, p)) eqn:Ed; [|exact Ho].
+    pose proof (Hdef (k, p) Hin Ed) as Hm. cbn [fst] in Hm. congruence. }
+  assert (E2 : forall np x, In np props -> xfield_value e si sv np = Some x -> alookup (fst np) r2 = Some x).
+  { intros np x Hin Hx. destruct (alookup (fst np) r2) as [x0|] eqn:Ea.
+    - specialize (Hext np Hin). rewrite Ea in Hext. destruct Hext as [H | [H _]]; congruence.
+    - rewrite (E1 np Hin Ea) in Hx. discriminate. }
+  assert (E3 : forall np x, In np props -> alookup (fst np) r2 = Some x -> xfield_value e si sv np = None ->
+                p_empty_is_default (snd np) = true).
+  { intros np x Hin Ha Hx. specialize (Hext np Hin). rewrite Ha in Hext. destruct Hext as [H | [_ H]]; congruence. }
+  assert (Hf : has_fields si props).
+  { intros np Hin. destruct (xd_sfs e props si Hdesc) as (sfs & _ & Hft).
+    destruct (xd_field e props si sfs np Hft Hin) as (fr & _ & _ & Hfr & _). congruence. }
+  (* the rules on the present properties *)
+  apply (xvalidate_struct_iff words pu _ _ _ _ _ _ _ Hf) in Hval. destruct Hval as (sv1 & Harg1 & Hrules' & _).
+  rewrite Harg in Harg1. inversion Harg1; subst sv1. clear Harg1.
+  (* the serialized value *)
+  destruct (xserialize_struct_value words pu f' e id u props si n w Hf Hser) as (sv0 & ys & Harg0 & Hys & ->).
+  rewrite Harg in Harg0. inversion Harg0; subst sv0. clear Harg0.
+  pose proof (xser_entries_keys words pu _ _ _ _ _ _ Hys) as Hykeys.
+  assert (HY : forall k y, In (k, y) ys -> exists p x, In (k, p) props /\ p_disabled p = false /\
+                 xunser f e (p_type p) y = Ok x /\ (fun k => alookup k r2) k = Some x).
+  { intros k y Hin. unfold xser_entries in Hys.
+    destruct (xr_forall2_in_r _ _ _ _ Hys Hin) as ([np x] & Hpres & Hk & Hsy). cbn [fst snd] in Hk, Hsy.
+    apply in_flat_map in Hpres as (np' & Hnp' & Hpres).
+    destruct (xfield_value e si sv np') as [x'|] eqn:Ex; [|contradiction].
+    destruct Hpres as [E|[]]. inversion E; subst np' x'.
+    destruct np as [k' p]. cbn [fst snd] in *. subst k.
+    pose proof (E2 _ _ Hnp' Ex) as Ha. cbn [fst] in Ha.
+    destruct (Hval2 k' x p (alookup_In _ _ _ Ha) Hnp') as (Hdis & d & Hd).
+    destruct (Hch (k', p) Hnp') as [H1 _]. destruct (H1 d x Hd) as (_ & _ & y' & Hy' & Hback). cbn [snd] in *.
+    assert (y' = y) by congruence. subst y'. exists p, x. auto. }
+  assert (Hyn : NoDup (map fst ys)) by (rewrite Hykeys; apply xpresent_nodup; exact Hndp).
+  assert (Hysub : forall k, In k (map fst ys) -> In k (map fst props)).
+  { intros k Hk. rewrite Hykeys in Hk. exact (xpresent_keys_sub _ _ _ _ _ Hk). }
+  destruct (xu_fold_back f e props (fun k => alookup k r2) ys Hndp HY props ys Hndp (fun np H0 => H0) eq_refl)
+    as (q2 & Hq2 & Hq2k & Hq2v).
+  { intros k Hk. split; [reflexivity|]. intros Hn. exfalso. apply Hn. apply Hysub. exact Hk. }
+  assert (Q3 : forall np, In np props -> alookup (fst np) q2 = xfield_value e si sv np).
+  { intros np Hin. destruct (xfield_value e si sv np) as [x|] eqn:Ex.
+    - rewrite (Hq2v (fst np)); [exact (E2 _ _ Hin Ex)|].
+      rewrite Hykeys. apply xpresent_in. exists np, x. auto.
+    - apply alookup_None_notin. rewrite Hq2k, Hykeys. intros C.
+      apply xpresent_in in C as (np' & x' & Hnp' & Hfst & Hx').
+      assert (np' = np).
+      { destruct np as [k p], np' as [k' p']. cbn [fst] in Hfst. subst k'.
+        apply (In_alookup_nodup _ _ _ Hndp) in Hin. apply (In_alookup_nodup _ _ _ Hndp) in Hnp'. congruence. }
+      subst np'. congruence. }
+  assert (Hq2n : NoDup (map fst q2)) by (rewrite Hq2k; exact Hyn).
+  assert (Hq2sub : forall k, In k (map fst q2) -> In k (map fst props)) by (rewrite Hq2k; exact Hysub).
+  assert (Hq2r2 : forall k x, In (k, x) q2 -> In (k, x) r2).
+  { intros k x Hin. assert (Hkp : In k (map fst props)) by (apply Hq2sub; apply in_map_iff; exists (k, x); auto).
+    apply in_map_iff in Hkp as ([k0 p] & Hk0 & Hp). cbn [fst] in Hk0. subst k0.
+    pose proof (Q3 (k, p) Hp) as Hq. cbn [fst] in Hq. rewrite (In_alookup_nodup _ _ _ Hq2n Hin) in Hq. symmetry in Hq.
+    pose proof (E2 _ _ Hp Hq) as Ha. cbn [fst] in Ha. apply alookup_In in Ha. exact Ha. }
+  destruct (xto_struct_fields e props si Hdesc r2 n Hnd Hkeys Hto) as (sfs & fsN & Hsfs & HargN & Hset & Hoth).
+  destruct (xto_struct_succ e props si Hdesc q2) as (n' & Hto').
+  { intros k x Hin. split; [apply Hq2sub; apply in_map_iff; exists (k, x); auto|].
+    destruct (Hset _ _ (Hq2r2 _ _ Hin)) as (fr & i & c & Hfr & _ & Hc & _). exists fr, c. auto. }
+  exists n'. split.
+  { rewrite (xunser_S words pu). unfold raw_to_val. cbv beta iota zeta.
+    apply bind_ok. exists ys. split.
+    { apply (xk_fold_raw props ys []). intros k Hk. apply xr_amem_in. apply Hysub. exact Hk. }
+    cbv beta. apply bind_ok. exists ys. split.
+    { apply xsub_fold_id.
+      - apply xd_fold_id. intros np Hin Hd.
+        destruct (xfield_value e si sv np) as [x|] eqn:Ex.
+        + apply xr_amem_in. rewrite Hykeys. apply xpresent_in. exists np, x. auto.
+        + exfalso. pose proof (Hdef np Hin Hd) as Hm. apply amem_alookup in Hm as (x & Hx).
+          pose proof (E3 np x Hin Hx Ex) as He.
+          rewrite (xempty_nodefault_spec e props np Hnodef Hin He) in Hd. discriminate.
+      - intros np Hin Ham. assert (Hay : alookup (fst np) ys = None) by (now apply amem_false).
+        destruct (alookup (fst np) r2) as [x|] eqn:Ea.
+        + assert (Ex : xfield_value e si sv np = None).
+          { destruct (xfield_value e si sv np) as [x'|] eqn:Ex; [|reflexivity]. exfalso.
+            assert (amem (fst np) ys = true); [|congruence].
+            apply xr_amem_in. rewrite Hykeys. apply xpresent_in. exists np, x'. auto. }
+          destruct (Hch np Hin) as [_ H2]. apply H2; [exact (E3 np x Hin Ea Ex) | exact Hay].
+        + apply Hsubq; [exact Hin | now apply amem_false | exact Hay]. }
+    cbv beta. apply bind_ok. exists q2. split; [exact Hq2|].
+    cbv beta. apply bind_ok. exists tt. split; [|exact Hto'].
+    apply xcheck_rules_ok. intros name p Hin. eapply xrule_holds_ext; [|exact (Hrules' name p Hin)].
+    intros k. cbv beta. apply x_amem_keys. rewrite Hq2k, Hykeys. reflexivity. }
+  destruct (xto_struct_extract e props si Hdesc q2 n' Hq2n Hq2sub) as (sv' & Harg' & Hext'); [|exact Hto'|].
+  { intros k x p Hin Hp. destruct (Hval2 k x p (Hq2r2 _ _ Hin) Hp) as (_ & d & Hd).
+    destruct (Hch (k, p) Hp) as [H1 _]. apply (H1 d x Hd). }
+  exists sv, sv'. split; [exact Harg|]. split; [exact Harg'|].
+  intros np Hin. destruct (xfield_value e si sv np) as [x|] eqn:Ex.
+  - destruct (xto_struct_agree e props si Hdesc r2 q2 n n' np Hin Hnd Hkeys Hto Hq2n Hq2sub Hto') as (s1 & s2 & A1 & A2 & Heq).
+    { rewrite (Q3 np Hin), Ex. exact (E2 _ _ Hin Ex). }
+    rewrite Harg in A1. rewrite Harg' in A2. inversion A1; inversion A2; subst. rewrite <- Heq. exact Ex.
+  - specialize (Hext' np Hin). rewrite (Q3 np Hin), Ex in Hext'. apply Hext'.
+    pose proof (xd_opt e props si Hdesc np Hin) as Ho. apply andb_prop in Ho as [Ho Hemp].
+    assert (Hreq : p_required (snd np) = false /\ xhas_default e np = false).
+    { destruct (alookup (fst np) r2) as [x|] eqn:Ea.
+      - pose proof (E3 np x Hin Ea Ex) as He. destruct (xempty_ok_spec props np Hemp He) as (H1 & _). split; [exact H1|].
+        exact (xempty_nodefault_spec e props np Hnodef Hin He).
+      - destruct np as [k p]. pose proof (Hr k p Hin) as Hrk. unfold xrule_holds in Hrk. cbn [fst] in Ea.
+        rewrite (proj2 (amem_false _ _) Ea) in Hrk. destruct Hrk as (Hreq & _). split; [exact Hreq|].
+        destruct (xhas_default e (k, p)) eqn:Ed; [|reflexivity].
+        pose proof (Hdef (k, p) Hin Ed) as Hm. cbn [fst] in Hm. apply amem_false in Ea. congruence. }
+    destruct Hreq as [H1 H2]. rewrite H1, H2 in Ho. exact Ho.
+Qed.
+
+End Full.
+
+Print Assumptions x_struct_roundtrip.
